@@ -26,6 +26,19 @@ CLAIMS["C13"] = dict(
    text="Decides that no exception class outside the documented set can escape any decoder entry point (DER objects, PEM, PKCS#8/PBES, unpad, RFC 1751, OpenSSH, RSA/DSA/ECC import_key) under an explicit exception model, and that the DER and padding decoders accept exactly the strict encodings of a distinguishing table. Totality and strictness are properties of the shape of the decoder code; round-trip identity on values is not decided.",
    note="Exception model = explicit raises along resolved calls inside the decoder layer + X2/X3/X4 intrinsic raisers; reviewed tables X4_REVIEWED/X4_EDGES in vstat/props/C13.py carry one reason per entry. Python may raise more than the model knows.")
 
+CLAIMS["C05"] = dict(
+   technique="guard conformance by abstract interpretation of construct()/generate()/import code on distinguishing component tuples and region representatives; closure extraction of RSA prime filters; must-pass-through for Montgomery validation",
+   text="Decides that each invariant named in the property has a guard on every consistency-check path of RSA/DSA/ElGamal construct, DSA.generate and the ECC key/point/import code, with the exact comparator and ValueError: every tuple of a distinguishing table violates exactly one invariant, so deleting, weakening or overwriting one guard (e.g. a flag accumulation turned into an assignment) flips its verdict, while re-expressing it does not. Also the FIPS 186-4 B.3.3 prime filters of RSA.generate (including odd modulus sizes) and RFC 7748/8032 clamping. Primality testing and arithmetic are not decided.",
+   note="Trusts the checker's own small-number arithmetic for the oracle predicates and the engine's operator models; primality of the small witnesses is computed by the checker's deterministic Miller-Rabin.")
+CLAIMS["C11"] = dict(
+   technique="guard normalisation by region enumeration on counter-block assembly and CCM length limits; piecewise mapping of native result codes to exceptions; counter-effect analysis of HPKE's sequence number on every exit",
+   text="Decides the structural necessary conditions of 'no keystream block or nonce twice': the CTR/Counter set-up refuses nonces, initial values and layouts that do not fit, CCM's q-limit and cumulative declared-length accounting are enforced at every site, the counter-wrap code of the native CTR is mapped to OverflowError and no other native error is dropped, HPKE never reuses a sequence number. Distinctness of counter blocks inside the C increment code is not decided.",
+   note="The numeric agreement of 0x60002 with the C macro ERR_CTR_REPEATED_KEY_STREAM is checked by the C-side engine where available.")
+CLAIMS["C15"] = dict(
+   technique="abstract interpretation of the HPKE key schedule with HKDF replaced by injective symbolic tokens (term comparison with RFC 9180), counter-effect analysis, guard normalisation by region enumeration",
+   text="Decides that the terms computed by the key schedule, ExtractAndExpand, Encap/Decap context and per-message nonce are exactly the terms RFC 9180 defines (labels, suite ids, I2OSP framing, context order, lengths) for all 5 KEMs x 3 AEADs x 4 modes; that the sequence number advances by one per successful message, not on a rejected one, and never wraps; that VerifyPSKInputs and the set-up/role/length guards accept exactly the RFC's domain. HKDF/DH/AEAD internals are covered by C12/C06/C01.",
+   note="Symbolic tokens are injective encodings built by the checker; the RFC terms are written out in vstat/props/C15.py.")
+
 NOT_YET = {}
 
 ALL = ["C%02d" % i for i in range(1, 21)]
